@@ -29,6 +29,8 @@ impl Loop {
 impl Exec for Loop {
     fn exec(&self, interpreter: &mut Interpreter) -> ExecResult {
         loop {
+            #[cfg(simplesl_verif)]
+            simplesl_verif_seams::fuel::loop_tick();
             match self.0.exec(interpreter) {
                 Ok(_) | Err(ExecStop::Continue) => (),
                 Err(ExecStop::Break) => break,
